@@ -69,7 +69,7 @@ def build(tier):
     ul = Unit('setuplong', 'C11/setup.cpp', ['h_setup'], defines={'MAXM': ML},
               aliases={'_ZN8Position8makeMoveERK4MoveR8UndoInfo': 'model_makeMove'}, allow_extern=ALLOW)
     units.append(ul)
-    longs = [(100, 127, 0), (101, 127, 0)] if tier == 'quick' else [(99, 127, 7), (100, 127, 0), (101, 127, 0), (104, 127, 96), (102, 0, None), (103, 1, 0), (104, 2, 0), (104, 50, 3)]
+    longs = [(100, 127, 0), (101, 127, 0), (104, 50, 3)] if tier == 'quick' else [(99, 127, 7), (100, 127, 0), (101, 127, 0), (104, 127, 96), (102, 0, None), (103, 1, 0), (104, 2, 0), (104, 50, 3)]
     for (n, z, hc) in longs:
         obs.append(Ob('O3-setupPosition@long%d:%s:%s' % (n, 'none' if z >= n else 'x%d' % z, 'clk*' if hc is None else 'clk%d' % hc), ul, 'h_setup', SETUP_DESC,
            unwind=210, unwind_fn={r'__ir_mem\w+_n': 2500}, core=False, param=setup_param(n, 1, 2, hc, 1, z), timeout=1800, mem_gb=12, functions=SETUP_FUNCS, stubs=SETUP_STUBS,   # vector reallocation copies up to 300 words byte by byte
